@@ -26,6 +26,9 @@ pub struct DecoderSpec {
 	pub fail_decode: Vec<u64>,
 	/// 0-based indices of `seek` calls that fail (call 0 happens in `into_sound`)
 	pub fail_seek: Vec<u64>,
+	/// once a call has failed, every later call fails too (broken stream)
+	#[serde(default)]
+	pub fail_sticky: bool,
 }
 
 impl DecoderSpec {
@@ -36,6 +39,7 @@ impl DecoderSpec {
 			seek_gran: 1,
 			fail_decode: vec![],
 			fail_seek: vec![],
+			fail_sticky: false,
 		}
 	}
 }
@@ -103,7 +107,7 @@ impl Decoder for ScriptedDecoder {
 		// lets the simulator preempt / end a decoder task that is stuck in here
 		kira::verif::yield_point("scripted.decode");
 		let call = self.probe.decode_calls.fetch_add(1, Ordering::SeqCst);
-		if self.spec.fail_decode.contains(&call) {
+		if self.spec.fail_decode.contains(&call) || (self.spec.fail_sticky && self.probe.errors.load(Ordering::SeqCst) > 0) {
 			return Err(self.raise(ScriptErr::Decode(call)));
 		}
 		if self.cursor >= self.spec.data.len {
@@ -124,7 +128,7 @@ impl Decoder for ScriptedDecoder {
 
 	fn seek(&mut self, index: usize) -> Result<usize, ScriptErr> {
 		let call = self.probe.seek_calls.fetch_add(1, Ordering::SeqCst);
-		if self.spec.fail_seek.contains(&call) {
+		if self.spec.fail_seek.contains(&call) || (self.spec.fail_sticky && self.probe.errors.load(Ordering::SeqCst) > 0) {
 			return Err(self.raise(ScriptErr::Seek(call)));
 		}
 		let g = self.spec.seek_gran.max(1);
